@@ -165,10 +165,14 @@ func (l *lexer) emit(t TokenType) {
 	l.startcol = l.col
 }
 
+// eofRune is what next() returns at the end of the input. It must not be a value a
+// decoded rune can take (the exported token type constant EOF is 1, i.e. U+0001).
+const eofRune rune = -1
+
 func (l *lexer) next() rune {
 	if l.pos >= len(l.input) {
 		l.width = 0
-		return EOF
+		return eofRune
 	}
 	r, w := utf8.DecodeRuneInString(l.input[l.pos:])
 	l.width = w
@@ -265,7 +269,7 @@ func (l *lexer) run() {
 
 				for {
 					switch l.peek() {
-					case EOF:
+					case eofRune:
 						l.errorf("Single-line comment not closed.")
 						return
 					case '\n':
@@ -305,7 +309,7 @@ func (l *lexer) run() {
 			l.line++
 			l.col = 0
 		}
-		if l.next() == EOF {
+		if l.next() == eofRune {
 			break
 		}
 	}
@@ -422,7 +426,7 @@ func (l *lexer) stateString() lexerStateFn {
 			default:
 				return l.errorf("Unknown escape sequence: \\%c", l.peek())
 			}
-		case EOF:
+		case eofRune:
 			return l.errorf("Unexpected EOF, string not closed.")
 		case '\n':
 			return l.errorf("Newline in string is not allowed.")
